@@ -351,6 +351,8 @@ class _DivideTransformer(ast.NodeTransformer):
         if not isinstance(node.op, ast.Div):
             return self.generic_visit(node)
 
+        # Divisions may be nested in the numerator, e.g. `("A" / 2) / 3`.
+        self.generic_visit(node)
         return ast.Call(
             func=ast.Name(id="_safe_divide", ctx=ast.Load()),
             args=[node.left, node.right],
